@@ -601,19 +601,107 @@ func makeIntrinsics() map[string]intrinsic {
 		*p = structure{}
 		return p
 	}
+	// matchAt: does sep (concrete) occur in s at position i
+	matchAt := func(s *Str, i int, sep string) *Term {
+		if i+len(sep) > len(s.B) {
+			return False
+		}
+		r := BVCmp("bvule", BVConstI(int64(i+len(sep)), 64), s.Len)
+		for k := 0; k < len(sep); k++ {
+			r = And(r, Eq(s.B[i+k], BVConstI(int64(sep[k]), 8)))
+		}
+		return r
+	}
 	m["strings.Index"] = func(st *State, fr *frame, a []value, cc *ssa.CallCommon) value {
 		s := a[0].(*Str)
 		sub, ok := a[1].(*Str).Concrete()
-		if !ok || len(sub) != 1 {
-			panic(pathEnd{kind: "unsupported", msg: "strings.Index with non-constant or multi-byte separator"})
+		if !ok || s.Blob != nil {
+			panic(pathEnd{kind: "unsupported", msg: "strings.Index with a non-constant separator"})
 		}
-		c := BVConstI(int64(sub[0]), 8)
+		if len(sub) == 0 {
+			return BVConstI(0, 64)
+		}
 		r := BVConst(big.NewInt(-1), 64)
-		for i := len(s.B) - 1; i >= 0; i-- {
-			hit := And(Eq(s.B[i], c), BVCmp("bvult", BVConstI(int64(i), 64), s.Len))
-			r = Ite(hit, BVConstI(int64(i), 64), r)
+		for i := len(s.B) - len(sub); i >= 0; i-- {
+			r = Ite(matchAt(s, i, sub), BVConstI(int64(i), 64), r)
 		}
 		return r
+	}
+	m["strings.Contains"] = func(st *State, fr *frame, a []value, cc *ssa.CallCommon) value {
+		s := a[0].(*Str)
+		sub, ok := a[1].(*Str).Concrete()
+		if !ok || s.Blob != nil {
+			panic(pathEnd{kind: "unsupported", msg: "strings.Contains with a non-constant substring"})
+		}
+		r := BoolConst(len(sub) == 0)
+		for i := 0; i+len(sub) <= len(s.B); i++ {
+			r = Or(r, matchAt(s, i, sub))
+		}
+		return r
+	}
+	// scan forks on every position: the non-overlapping occurrences of sep, left to right (as strings.Count / Replace)
+	scan := func(st *State, s *Str, sep string) (int, []int) {
+		n := len(s.B)
+		if s.Len.IsConst() {
+			n = int(s.Len.C.Int64())
+		} else {
+			for n = 0; n < len(s.B); n++ {
+				if st.decide(Eq(s.Len, BVConstI(int64(n), 64))) {
+					break
+				}
+			}
+		}
+		var at []int
+		for i := 0; i+len(sep) <= n; {
+			if st.decide(matchAt(s, i, sep)) {
+				at = append(at, i)
+				i += len(sep)
+			} else {
+				i++
+			}
+		}
+		return n, at
+	}
+	m["strings.Count"] = func(st *State, fr *frame, a []value, cc *ssa.CallCommon) value {
+		s := a[0].(*Str)
+		sub, ok := a[1].(*Str).Concrete()
+		if !ok || s.Blob != nil || len(sub) == 0 {
+			panic(pathEnd{kind: "unsupported", msg: "strings.Count with a non-constant or empty separator"})
+		}
+		_, at := scan(st, s, sub)
+		return BVConstI(int64(len(at)), 64)
+	}
+	replace := func(st *State, a []value, limit int) value {
+		s := a[0].(*Str)
+		old, ok1 := a[1].(*Str).Concrete()
+		nw, ok2 := a[2].(*Str).Concrete()
+		if !ok1 || !ok2 || s.Blob != nil || len(old) == 0 {
+			panic(pathEnd{kind: "unsupported", msg: "strings.Replace with non-constant or empty pattern"})
+		}
+		n, at := scan(st, s, old)
+		out := &Str{}
+		pos := 0
+		for k, i := range at {
+			if limit >= 0 && k >= limit {
+				break
+			}
+			out.B = append(out.B, s.B[pos:i]...)
+			for _, c := range []byte(nw) {
+				out.B = append(out.B, BVConstI(int64(c), 8))
+			}
+			pos = i + len(old)
+		}
+		out.B = append(out.B, s.B[pos:n]...)
+		out.Len = BVConstI(int64(len(out.B)), 64)
+		return out
+	}
+	m["strings.ReplaceAll"] = func(st *State, fr *frame, a []value, cc *ssa.CallCommon) value { return replace(st, a, -1) }
+	m["strings.Replace"] = func(st *State, fr *frame, a []value, cc *ssa.CallCommon) value {
+		lim, ok := asConcreteInt(a[3])
+		if !ok {
+			panic(pathEnd{kind: "unsupported", msg: "strings.Replace with a symbolic count"})
+		}
+		return replace(st, a[:3], lim)
 	}
 	indexByte := func(st *State, fr *frame, a []value, cc *ssa.CallCommon) value {
 		s := a[0].(*Str)
